@@ -23,6 +23,9 @@
 //
 //	(seq ((key kind content)...) (op...))
 //	    a HISTORY of requests on one local.Service over a backend that may change in between: see seq.go.
+//
+//	(conc ((key kind content)...) (req...) rounds)
+//	    requests issued CONCURRENTLY (one goroutine each) on one local.Service over an unchanged backend: see conc.go.
 package c20
 
 import (
@@ -263,6 +266,8 @@ func runImpl(input string) (string, error) {
 		return runLookup(in)
 	case "seq":
 		return runSeq(in)
+	case "conc":
+		return runConc(in)
 	}
 	return "", fmt.Errorf("unknown case kind %q", in.At(0).Str())
 }
@@ -674,12 +679,13 @@ func genLookupCase(r *rng.R) fw.Case {
 }
 
 func generate(tier string, r *rng.R) []fw.Case {
-	nParse, nLookup, nSeq := 50000, 3000, 3000
+	nParse, nLookup, nSeq, nConc := 50000, 3000, 3000, 60
 	if tier == "thorough" {
-		nParse, nLookup, nSeq = 400000, 30000, 30000
+		nParse, nLookup, nSeq, nConc = 400000, 30000, 30000, 1200
 	}
 	cs := exhaustiveLookups()
 	cs = append(cs, fixedSeqs()...)
+	cs = append(cs, fixedConcs()...)
 	for i := 0; i < nLookup; i++ {
 		cs = append(cs, genLookupCase(r.Fork()))
 	}
@@ -688,6 +694,10 @@ func generate(tier string, r *rng.R) []fw.Case {
 	}
 	for i := 0; i < nParse; i++ {
 		cs = append(cs, genParseCase(r.Fork()))
+	}
+	// last, so that the streams of the older classes stay what they were for a given seed
+	for i := 0; i < nConc; i++ {
+		cs = append(cs, genConcCase(r.Fork()))
 	}
 	return cs
 }
@@ -708,6 +718,8 @@ func nontrivial(input, obs string) bool {
 	case "seq":
 		// a history with at least two processed requests
 		return seqNontrivial(in)
+	case "conc":
+		return concNontrivial(in)
 	}
 	return false
 }
@@ -739,6 +751,8 @@ func shrinkCands(input string) []string {
 		}
 	case "seq":
 		out = seqShrink(in)
+	case "conc":
+		out = concShrink(in)
 	}
 	return out
 }
@@ -756,19 +770,24 @@ func init() {
 			"GetComponentConfiguration, InvalidateComponentTemplateCache, backend put/del) on ONE local.Service, over 1-4 fallback directories of one component " +
 			"holding snippets and entries that include / extend each other (s0<s1<base<mid<entries, nested sub/ directory, full-path and unloadable " +
 			"references), every request with an independent random subset of 6 variable names, queries repeated with other variables, 1 in 4 histories " +
-			"with backend changes (half of them followed by an invalidation), plus 11 fixed histories; parse: grammar-generated component/RUNTYPE/role/entry strings, entries " +
+			"with backend changes (half of them followed by an invalidation), plus 11 fixed histories; conc: 3-10 requests (ResolveComponentQuery alone / followed by " +
+			"GetComponentConfiguration / followed by GetAndProcess, direct Get and GetAndProcess; the same request from several goroutines 1 time in 4) issued by one goroutine each on ONE " +
+			"local.Service over ONE real file source whose file is never modified, released together by a barrier 4-10 times and issued 4 times back to back each time, over candidate trees " +
+			"(each fallback candidate absent/value/directory, biased to present) and the include/extend directories of the seq class, every answer compared with the model's " +
+			"schedule-free answer and with the answer of the request alone on a fresh service, plus, for the ordinary shape, all 16 existence patterns asked by 8 goroutines; parse: grammar-generated component/RUNTYPE/role/entry strings, entries " +
 			"paths and parameter lists, 12 mutation operators, random soup, surrounding Unicode blanks, through NewQuery/NewEntriesQuery/" +
-			"NewQueryParameters; non-trivial = lookup with >=4 tree entries, seq with >=2 processed requests, or parse string with >=2 '/' or a '='; distinct by input text",
+			"NewQueryParameters; non-trivial = lookup with >=4 tree entries, seq with >=2 processed requests, conc with >=2 requests and >=2 rounds, or parse string with >=2 '/' or a '='; distinct by input text",
 		Shrink:     shrinkCands,
 		Exhaustive: func(string) bool { return false },
 		Workers:    1,
 		TrustedBase: []string{
-			"harness/props/c20 (YAML tree builder, Exists recorder, error-class mapping)",
+			"harness/props/c20 (YAML tree builder, Exists recorder, error-class mapping, barrier runner of the concurrent cases)",
 			"Go regexp, strings.TrimSpace, net/url.ParseQuery, gopkg.in/yaml.v3, pongo2 lexer/parser (modelled: text, {{ name }}, {% include \"f\" %}, {% extends \"f\" %}, top-level {% block %})",
 			"/repo/apricot/local/verif_hook_c20.go (build tag verif): constructor for a Service over a given cfgbackend.Source",
 		},
 		Assumptions: []string{
 			"lookup cases run a fresh Service per case; seq cases run a whole history on one Service (template cache modelled as path -> backend snapshot at compile time)",
+			"conc cases: the configuration does not change while requests are in flight (model: every atomic probe reads the same tree; go/ast pins that YamlSource.refresh publishes only completely built trees); the unsynchronised pointer write/read of YamlSource.data yields one of the two complete trees (word-sized store; not promised by the Go memory model)",
 			"include/extends chains are acyclic (the real loader recurses without a guard; cyclic inputs are refused by the harness)",
 			"variable keys are distinct after strings.TrimSpace (otherwise Go map iteration order decides which value wins)",
 			"strings are valid UTF-8",
@@ -1090,6 +1109,14 @@ func genTables(repo string) (string, error) {
 		}
 		fmt.Fprintf(&b, "  %s%s\n", leanChars(k), sep)
 	}
-	b.WriteString("]\n\nend Gen.C20\n")
+	b.WriteString("]\n\n")
+
+	// 6. what the concurrent-lookup model assumes about the file backend (go/ast over yamlsource.go)
+	facts, err := genConcFacts(repo)
+	if err != nil {
+		return "", err
+	}
+	b.WriteString(facts)
+	b.WriteString("end Gen.C20\n")
 	return b.String(), nil
 }
